@@ -17,6 +17,7 @@ EXTENDS CoapTcpFrame, TLC
 CONSTANTS MaxSeq,     \* messages per stream
           MaxMsg,     \* the receiver's maximum message size (16 in the table below)
           LongFirst,  \* first archetype of the sequences of length MaxSeq
+          LongTooks,  \* receiver kinds explored with the sequences of length MaxSeq
           Tooks       \* subset of BOOLEAN: kinds of receiver (see `took' in CoapTcpFrame)
 
 PendToks == << <<81>>, <<82>> >>      \* tokens of the two requests pending at the receiver
@@ -69,9 +70,9 @@ St == [spool |-> spool, csm |-> csmSeen, done |-> done, closed |-> closed, disp 
 \* archetype from LongFirst (all of them in the thorough tier, the CSM in the
 \* quick tier)
 Init == /\ seq \in UNION {[1..n -> 1..NArch] : n \in 0..MaxSeq}
-        /\ Len(seq) = MaxSeq => seq[1] \in LongFirst
-        /\ stream = Flatten([i \in 1..Len(seq) |-> Arch[seq[i]].b])
         /\ tk \in Tooks
+        /\ Len(seq) = MaxSeq => seq[1] \in LongFirst /\ tk \in LongTooks
+        /\ stream = Flatten([i \in 1..Len(seq) |-> Arch[seq[i]].b])
         /\ pos = 0
         /\ spool = << >> /\ csmSeen = FALSE /\ closed = FALSE /\ dispatched = << >> /\ written = << >>
         /\ done = "no" /\ stopAt = 0 /\ nproc = 0 /\ nempty = 0
@@ -113,7 +114,7 @@ StopAllowed(i) ==
   /\ \A j \in 1..(i - 1) : Fr(j).cls \notin {"fatal", "peer"}
   /\ CASE done = "fatal" -> Fr(i).cls = "fatal" \/ (Fr(i).cls = "soft" /\ tk)
        [] done = "peer"  -> Fr(i).cls = "peer"
-       [] done = "may"   -> tk /\ (Fr(i).cls = "unk" \/ (Fr(i).cls \in {"msg", "soft"} /\ ~CsmBefore(i)))
+       [] done = "may"   -> tk /\ (Fr(i).cls = "unk" \/ (Fr(i).cls \notin {"csm", "peer", "fatal"} /\ ~CsmBefore(i)))
        [] OTHER -> FALSE
 
 C15_DispatchIndependentOfChunking ==
